@@ -936,7 +936,10 @@ impl NHistory {
             // the token must stay valid for the rounds, and the client must still have time before its own deadline
             let not_expired = s.current_time().as_secs() + 3 < tinfo.expire;
             let token_unused_elsewhere = self.client_token.get(&k).and_then(|t| self.token_seen_from.get(t)).map(|s| s.iter().all(|a| *a == addr)).unwrap_or(true);
-            connecting && free && id_free && addr_free && pending_ok && responding_ok && deadline_ok && targets_server && not_expired && tinfo.valid_for_server && token_unused_elsewhere
+            // scoped to the first session on a token: a second one restarts the sequence numbers under the same keys and
+            // the client's replay window may already hold them
+            let first_session = !self.client_token_reused(k) && self.client_token.get(&k).map(|t| self.token_sessions.get(t).copied().unwrap_or(0) == 0).unwrap_or(true);
+            first_session && connecting && free && id_free && addr_free && pending_ok && responding_ok && deadline_ok && targets_server && not_expired && tinfo.valid_for_server && token_unused_elsewhere
         };
         let targets = self.world.clients.get(&k).map(|c| self.world.server.as_ref().map(|s| s.addresses().contains(&c.server_addr())).unwrap_or(false)).unwrap_or(false);
         let client_time = self.world.clients.get(&k).map(|c| c.current_time()).unwrap_or_default();
